@@ -730,6 +730,11 @@ class Interp:
         r = e["recv"]
         while r["k"] in ("addrof", "droptemps"):
             r = r["a"]
+        if r["k"] == "path" and r.get("res") == "local" and env.get(r["id"], ("x",))[0] == "alias" and env.get(env[r["id"]][1], ("x",))[0] in SEQ:
+            name = strip_generics(e.get("callee") or e.get("decl") or "")
+            if name in self.MUTATORS:
+                return True
+            raise Unanalysable("unsupported mutation `%s` through an alias of a tracked sequence at line %s" % (name, e["sp"][0]))
         if r["k"] == "path" and r.get("res") == "local" and env.get(r["id"], ("x",))[0] in SEQ:
             name = strip_generics(e.get("callee") or e.get("decl") or "")
             if name in self.MUTATORS:
@@ -746,6 +751,8 @@ class Interp:
         while r["k"] in ("addrof", "droptemps"):
             r = r["a"]
         vid = r["id"]
+        if env.get(vid, ("x",))[0] == "alias":
+            vid = env[vid][1]
         name = strip_generics(e.get("callee") or e.get("decl"))
         arg = self.ev(e["args"][0], env)
         cur = env[vid]
@@ -806,7 +813,10 @@ class Interp:
             return ("litx", e.get("v"))
         if k == "path":
             if e.get("res") == "local":
-                return env.get(e["id"], ("var", e["id"]))
+                v = env.get(e["id"], ("var", e["id"]))
+                if v[0] == "alias" and not getattr(self, "_keep_alias", False):
+                    return env.get(v[1], v)          # reading through a mutable alias reads the sequence itself
+                return v
             if e.get("res") == "def":
                 if "const_bits" in e:
                     return lit(e["const_bits"])
@@ -816,6 +826,9 @@ class Interp:
                     return ("ctor", e["def"], ())
                 return ("def", e.get("callee") or e["def"])
             return ("path?", e.get("res"))
+        if k == "addrof" and e.get("mut") and e["a"].get("k") == "path" and e["a"].get("res") == "local" and env.get(e["a"].get("id"), ("x",))[0] in SEQ:
+            # `&mut buffer`: a mutable alias of a tracked sequence (mutations through it go to the sequence itself)
+            return ("alias", e["a"]["id"])
         if k in ("addrof", "droptemps", "type"):
             return self.ev(e["a"], env)
         if k == "unary":
